@@ -188,7 +188,7 @@ def few_rows(ctx):
     # a boundary NUMBER of steps (rule length + 1, + 2, + 3): with exactly two extrapolated rows the Richardson error estimates (not dea3's)
     # decide the selection; neighbours of very different magnitude must not enter an element's tolerances
     quintic = lambda x: x * x * x * x * x + x * x      # noqa  (multiplications only: identical bits for scalars and arrays)
-    xs = np.array([0.75, 1.0e3, 0.5, 40.0, 1.0e6, 2.0])
+    xs = np.array([0.75, 1.0e3, 0.5, 40.0, 1.0e6, 2.0, 8.6e16, 3.0e14])       # (the default steps vanish next to the largest elements: x + h == x)
     for method, n, order in (('central', 1, 2), ('forward', 1, 2), ('backward', 1, 2), ('forward', 2, 2), ('central', 3, 4), ('forward', 1, 4), ('central', 2, 2)):
         for num_steps in range(2, 10):
             d = nd.Derivative(quintic, n=n, method=method, order=order, num_steps=num_steps, full_output=True)
